@@ -270,7 +270,8 @@ func (g *PG) stmt(depth int) {
 		case c == 8 && len(g.vars("[]int")) > 0:
 			g.f("append")
 			s := Pick(r, g.vars("[]int"))
-			g.w("%s = append(%s, %s)\n", s, s, g.intExpr(1))
+			// bounded: an append inside a range over the same slice would otherwise double it per pass
+			g.w("if len(%s) < 24 {\n%s = append(%s, %s)\n}\n", s, s, s, g.intExpr(1))
 		default:
 			g.trace()
 		}
